@@ -21,7 +21,7 @@ fn mk_queue<const N: usize>(indirect: bool, event_idx: bool, legacy: bool) -> (V
 /// every previous-check index within 2^15 entries, both modes, any used.flags.  Loop-free after
 /// construction => complete for this instantiation.
 #[kani::proof]
-#[kani::unwind(6)]
+#[kani::unwind(10)]
 fn c05_should_notify_full_domain() {
     let event_idx: bool = kani::any();
     let (mut q, _t) = mk_queue::<4>(false, event_idx, false);
@@ -48,7 +48,7 @@ fn c05_should_notify_full_domain() {
 /// C05 K∎: `set_dev_notify` writes exactly the flag the device reads (no event-index) and
 /// leaves it alone with event-index.
 #[kani::proof]
-#[kani::unwind(6)]
+#[kani::unwind(10)]
 fn c05_set_dev_notify() {
     let event_idx: bool = kani::any();
     let (mut q, _t) = mk_queue::<4>(false, event_idx, false);
